@@ -870,7 +870,7 @@ int __wrap_timerfd_settime(int fd, int flags, const struct itimerspec *nv, struc
 	} else {
 		f->armed = 1;
 		f->armed_ns = v;
-		f->deadline = now_ns + v;
+		f->deadline = (v > UINT64_MAX - now_ns) ? UINT64_MAX : now_ns + v; /* Linux saturates, it never wraps */
 		f->expirations = 0;
 	}
 	return 0;
